@@ -336,3 +336,103 @@ def _(run):
         n = s.ghost.get('errs_outside', 0)
         return z3.If(z3.And(z3.Not(pat_none), z3.Not(prim_union), pat_fails), z3.BoolVal(n == 1), z3.BoolVal(n == 0))
     run.post(ex, outs, pre, {'a-pattern-failure-is-collected-as-one-error': pattern_error, 'every-validator-applied-once-and-its-error-collected': every_validator, 'patterns-applied-here-or-handed-to-the-union': patterns, 'decoded-by-the-base-type-from-the-normalised-text': base_value})
+
+
+# ------------------------------------------------------------------ XsdAtomicRestriction.raw_encode: the pattern facets apply to the text that is written (C02, C05)
+t = Target('simple_types.XsdAtomicRestriction.raw_encode.patterns', ['C02', 'C05'], F, 'XsdAtomicRestriction.raw_encode',
+           note='encode direction of a restricted simple type (here: a restriction without value validators, so that the clause about patterns stands alone): whatever the value to encode is - a '
+                'string, a typed Python value, a list - the text produced by the base type is checked against the pattern facets of the restriction exactly once, and a mismatch is reported with '
+                'the caller\'s validation mode; when the primitive type is a union the patterns are handed to the union through the context instead (only if no outer restriction has pushed '
+                'patterns already); the text returned is the base type\'s; a list, an atomic or any other non-union primitive type makes no difference',
+           assumes=['base encoding, normalize, is_list / is_atomic are uninterpreted; the validators loop is covered on the decode side (same loop) and by the bounded family C02.encode_typed_values'])
+
+
+@t.symbolic
+def _(run):
+    from xmlschema.validators.exceptions import XMLSchemaValidationError
+    ex = run.exec(); st = new_state()
+    pat_none, pat_fails, prim_union, prim_atomic, prim_list, ctx_none = (z3.Bool(n) for n in ('no_patterns', 'patterns_fail', 'primitive_is_union', 'primitive_is_atomic', 'primitive_is_list', 'context_patterns_none'))
+    base_simple, content_simple, base_mixed, res_none, obj_str, obj_iter = (z3.Bool(n) for n in ('base_is_simple', 'base_content_is_simple', 'base_is_mixed', 'base_result_none', 'obj_is_str', 'obj_is_iterable'))
+    result = z3.String('encoded_text')
+    st.objf['content'] = {}; st.objf['base'] = {'content': VObj('content'), 'mixed': VBool(base_mixed)}; st.objf['prim'] = {}
+    st.objf['self'] = {'patterns': VOpt(pat_none, VStr(SV('<patterns>'))), 'primitive_type': VObj('prim'), 'base_type': VObj('base'), 'validators': VBool(z3.BoolVal(False)), 'max_length': VInt(z3.Int('max_length'))}
+    st.objf['context'] = {'patterns': VOpt(ctx_none, VStr(SV('<outer patterns>'))), 'namespaces': OPAQUE}
+    st.objf['obj'] = {}
+    st.env.update(self=VObj('self'), obj=VObj('obj'), validation=VStr(z3.String('validation')), context=VObj('context'))
+    st.ghost.update(errs=0, pattern_args=(), encoded=0, pushed_at_encode=None)
+    ex.names.update(XsdUnion=OPAQUE, XsdSimpleType=OPAQUE, XMLSchemaValueError=OPAQUE, str=OPAQUE, bytes=OPAQUE)
+
+    def isinstance_(e, s, r, a, k):
+        tn = ast.unparse(a[1]); x = a[0]
+        if isinstance(x, VObj) and x.name == 'prim': return VBool(prim_union) if 'XsdUnion' in tn else (_ for _ in ()).throw(Unsupported('isinstance prim ' + tn))
+        if isinstance(x, VObj) and x.name == 'base': return VBool(base_simple)
+        if isinstance(x, VObj) and x.name == 'content': return VBool(content_simple)
+        if 'str' in tn: return VBool(obj_str) if isinstance(x, VObj) else VBool(z3.BoolVal(isinstance(x, VStr)))
+        if tn == 'list': return VBool(z3.And(obj_iter, z3.Not(obj_str)))
+        raise Unsupported('isinstance ' + tn)
+    ex.callees['isinstance'] = isinstance_
+    ex.callees['hasattr'] = lambda e, s, r, a, k: VBool(obj_iter)
+    ex.callees['is_list'] = lambda e, s, r, a, k: VBool(prim_list)
+    ex.callees['is_atomic'] = lambda e, s, r, a, k: VBool(prim_atomic)
+    ex.callees['is_union'] = lambda e, s, r, a, k: VBool(prim_union)
+    ex.callees['normalize'] = lambda e, s, r, a, k: a[0]
+    ex.callees['str'] = lambda e, s, r, a, k: VStr(z3.String('str_of_obj'))
+    ex.callees['_'] = lambda *a: OPAQUE
+    orig_binop = ex.e_BinOp
+    ex.e_BinOp = lambda e, s: OPAQUE if isinstance(e.op, ast.Mod) else orig_binop(e, s)
+    orig_cmp, orig_list = ex.cmp, getattr(ex, 'e_List', None)
+
+    def cmp(op, l_, r_, s):
+        if isinstance(l_, VObj) and l_.name == 'obj':
+            if isinstance(op, (ast.Is, ast.IsNot)) and isinstance(r_, VNone): return z3.BoolVal(isinstance(op, ast.IsNot))
+            if isinstance(op, (ast.Eq, ast.NotEq)): return z3.Bool('obj_equals_empty_string') if isinstance(op, ast.Eq) else z3.Not(z3.Bool('obj_equals_empty_string'))
+        return orig_cmp(op, l_, r_, s)
+    ex.cmp = cmp
+    orig_ev = ex.ev
+    def ev(e, s):
+        if isinstance(e, ast.IfExp) and ast.unparse(e).startswith('[] if obj is None'): return VObj('obj')       # obj wrapped into a list: still "the value to encode"
+        if isinstance(e, ast.List): return VObj('obj')
+        return orig_ev(e, s)
+    ex.ev = ev
+
+    def patterns_call(e, s, r, a, k):
+        arg = a[0]
+        s.ghost['pattern_args'] = s.ghost['pattern_args'] + ((arg.val.t if isinstance(arg, VOpt) else arg.t) if isinstance(arg, (VStr, VOpt)) else None,)
+        e.pending_raise.append((pat_fails, VExc(XMLSchemaValidationError)))
+        return NONE
+    ex.callees['patterns'] = patterns_call
+
+    def verr(e, s, r, a, k): s.ghost['errs'] += 1; return NONE
+    ex.callees['validation_error'] = verr
+
+    def raw_encode(e, s, r, a, k):
+        s.ghost['encoded'] += 1
+        cp = s.objf['context']['patterns']; s.ghost['pushed_at_encode'] = cp
+        return VOpt(res_none, VStr(result))
+    ex.callees['raw_encode'] = raw_encode
+    pre = z3.And(z3.Not(z3.And(prim_union, prim_atomic, prim_list)), z3.Implies(prim_list, z3.Not(prim_union)), z3.Implies(prim_list, z3.Not(prim_atomic)))
+    run.inputs.update(no_patterns=pat_none, patterns_fail=pat_fails, primitive_is_union=prim_union, primitive_is_list=prim_list, obj_is_str=obj_str, base_result_none=res_none)
+    outs = ex.run(st, pre)
+    reached = z3.Or(base_simple, z3.And(content_simple, z3.Int('max_length') != 0))
+
+    def pattern_on_the_text(kind, v, s):
+        if kind == 'raise': return z3.BoolVal(isinstance(v, VExc) and v.cls is not None and v.cls.__name__ == 'XMLSchemaValueError')
+        args = s.ghost['pattern_args']
+        must = z3.And(reached, z3.Not(pat_none), z3.Not(prim_union), z3.Not(res_none))
+        ok_must = z3.And(z3.BoolVal(len(args) == 1 and args[0] is not None), (args[0] == result) if len(args) == 1 and args[0] is not None else z3.BoolVal(False),
+                         z3.BoolVal(s.ghost['errs'] == 1) == pat_fails if True else z3.BoolVal(True))
+        ok_not = z3.BoolVal(len(args) == 0 and s.ghost['errs'] == 0)
+        return z3.If(must, ok_must, z3.Implies(z3.Or(z3.Not(reached), pat_none, prim_union, res_none), ok_not))
+
+    def union_gets_the_patterns(kind, v, s):
+        if kind == 'raise' or s.ghost['encoded'] == 0: return z3.BoolVal(True)
+        cp = s.ghost['pushed_at_encode']
+        want_pushed = z3.And(z3.Not(pat_none), prim_union, ctx_none)
+        return z3.Implies(want_pushed, z3.And(z3.Not(cp.none), cp.val.t == SV('<patterns>'))) if isinstance(cp, VOpt) else z3.BoolVal(False)
+
+    def returns_base_text(kind, v, s):
+        if kind == 'raise': return z3.BoolVal(True)
+        if s.ghost['encoded'] == 0: return z3.Implies(reached, z3.BoolVal(False))
+        return z3.And(z3.BoolVal(s.ghost['encoded'] == 1), z3.BoolVal(isinstance(v, VOpt)), (v.val.t == result) if isinstance(v, VOpt) else z3.BoolVal(False))
+    run.post(ex, outs, pre, {'patterns-checked-once-on-the-encoded-text-whatever-the-value-is': pattern_on_the_text, 'a-union-primitive-receives-the-patterns-through-the-context': union_gets_the_patterns,
+                             'returns-the-text-of-the-base-type': returns_base_text})
